@@ -1056,8 +1056,10 @@ where
                     hs_noncmplt = Some(c);
                 }
             }
+            // Estimates of incomplete productions can still grow, so a rule's cost is only
+            // final once all its productions are complete (or one of them is unbounded).
             if let Some(high_cmplt) = hs_cmplt
-                && (hs_noncmplt.is_none() || hs_cmplt > hs_noncmplt)
+                && (hs_noncmplt.is_none() || high_cmplt == u16::MAX)
             {
                 debug_assert!(high_cmplt >= costs[i]);
                 costs[i] = high_cmplt;
